@@ -97,6 +97,7 @@ static struct nv_mask1 nv_dsrc_mask(const struct nv_dsrc* self, int64_t ifeature
 #define NV_FEATURE_DONE(T, RNG, P) (0 <= (T) && (T) < NVE_feature_type_sclass && (T) == NV_POOL_TYPE(self, P) \
   && 0 <= (RNG)[0] && (RNG)[0] <= (RNG)[1] && (RNG)[1] <= size_storage.c[T])
 #define NV_CNT_OK(k) (0 <= size_storage.c[k] && size_storage.c[k] <= (int64_t)i * NV_MAXROWS)
+#ifndef NV_STORAGE_UNWIND
 #define NV_LOOP_dsrc_resize_1 \
 __CPROVER_assigns(i, size_storage, nv_T1, nv_T2, nv_Tx, nv_RNG1, nv_RNG2, nv_RNGx, nv_Fx) \
 __CPROVER_loop_invariant(i <= size && size == features->size && self->m_storage_type.size == size && self->m_storage_range.rows == (int64_t)size && self->m_storage_range.cols == 2) \
@@ -105,3 +106,4 @@ __CPROVER_loop_invariant((uint64_t)nv_g1 < i ==> NV_FEATURE_DONE(nv_T1, nv_RNG1,
 __CPROVER_loop_invariant((uint64_t)nv_g2 < i ==> NV_FEATURE_DONE(nv_T2, nv_RNG2, nv_P2)) \
 __CPROVER_loop_invariant(((uint64_t)nv_g1 < i && (uint64_t)nv_g2 < i && nv_T1 == nv_T2) ==> (nv_RNG1[1] <= nv_RNG2[0] || nv_RNG2[1] <= nv_RNG1[0])) \
 __CPROVER_decreases(size - i)
+#endif
